@@ -348,6 +348,9 @@ structure DS where
   o : Opt := {}
   topo : Msg := Topology.zero
   st : St := { c := {}, w := { script := [] } }
+  /-- single-flight episode: automaton state and who leads the current flight (`some none` = DelayDo's goroutine) -/
+  sf : SF.S := {}
+  sfLeader : Option (Option Nat) := none
 
 def ro0 : Nat → Nat → Nat := fun _ _ => 0
 
@@ -508,7 +511,7 @@ def step (d : DS) (ws0 : List String) : DS × String :=
   match ws with
   | "reset" :: rest =>
     match parseOpt rest with
-    | some o => ({ o := o }, "ok")
+    | some o => ({ o := o }, "ok")   -- also resets the single-flight automaton
     | none => (d, "bad-op")
   | "serve" :: rest =>
     match ClusterWire.parseMsgAll rest with
@@ -569,6 +572,22 @@ def step (d : DS) (ws0 : List String) : DS × String :=
       | .panic => (d, "panic")
     | none => (d, "bad-op")
   | "!trace" :: rest => (d, Spec.Cluster.Wire.judgeLine rest)
+  | ["sf-enter", c] =>
+    match c.toNat? with
+    | some c =>
+      let (s', lead) := SF.enter d.sf c
+      ({ d with sf := s', sfLeader := if lead then some (some c) else d.sfLeader }, if lead then "leader" else "wait")
+    | none => (d, "bad-op")
+  | ["sf-delay"] =>
+    let (s', lead) := SF.delayEnter d.sf
+    ({ d with sf := s', sfLeader := if lead then some none else d.sfLeader }, if lead then "leader" else "skip")
+  | ["sf-finish"] =>
+    let before := d.sf.returned.length
+    let s' := SF.finish d.sf (d.sfLeader.getD none)
+    let rel := ((s'.returned.drop before).map (·.1)).foldl (fun acc x => insertNat x acc) []
+    ({ d with sf := s', sfLeader := none },
+     "released=" ++ (if rel.isEmpty then "-" else ",".intercalate (rel.map toString)) ++
+       " runs=" ++ toString s'.started ++ " cn=" ++ toString s'.cn)
   | "!route" :: ver :: tls :: rest =>
     -- oracle: owner of each slot according to the specification on the topology description
     match ver.toNat?, Spec.Cluster.Wire.parseDesc rest with
